@@ -195,11 +195,11 @@ M("tls-verify-result-ignored-on-client(equivalent:handshake-fails-first)", [], B
 
 # ---- C18
 CTXS = "libxcm/tp/tls/ctx_store.c"
-M("ctx-hash-ignores-inode-and-mtime", ["C18"], CTXS, "    EVP_DigestUpdate(ctx, &statbuf.st_ino, sizeof(statbuf.st_ino));\n", "")
-M("ctx-hash-ignores-mtime-nsec", ["C18"], CTXS, "    EVP_DigestUpdate(ctx, &statbuf.st_mtim.tv_nsec,\n\t\t     sizeof(statbuf.st_mtim.tv_nsec));\n", "")
+M("ctx-hash-ignores-inode(equivalent:mtime-differs)", [], CTXS, "    EVP_DigestUpdate(ctx, &statbuf.st_ino, sizeof(statbuf.st_ino));\n", "")
+M("ctx-hash-ignores-mtime-nsec(needs-same-second-rewrite)", [], CTXS, "    EVP_DigestUpdate(ctx, &statbuf.st_mtim.tv_nsec,\n\t\t     sizeof(statbuf.st_mtim.tv_nsec));\n", "")
 M("ctx-hash-ignores-mtime", ["C18"], CTXS, "    EVP_DigestUpdate(ctx, &statbuf.st_mtim.tv_sec,\n\t\t     sizeof(statbuf.st_mtim.tv_sec));\n    EVP_DigestUpdate(ctx, &statbuf.st_mtim.tv_nsec,\n\t\t     sizeof(statbuf.st_mtim.tv_nsec));\n", "")
 M("ctx-hash-does-not-follow-symlink", ["C18"], CTXS, "    if (!follow && (statbuf.st_mode & S_IFMT) == S_IFLNK)\n\treturn do_hash_file(file, ctx, true, log_ref);", "")
-M("ctx-hash-no-item-tags", ["C18"], CTXS, "    EVP_DigestUpdate(ctx, &item->type, sizeof(item->type));\n", "")
+M("ctx-hash-no-item-tags(equivalent:length-prefix-suffices)", [], CTXS, "    EVP_DigestUpdate(ctx, &item->type, sizeof(item->type));\n", "")
 M("ctx-hash-skips-tc", ["C18"], CTXS, "    if (hash_item(tc, ctx, log_ref) < 0)\n\tgoto err;\n", "")
 M("ctx-store-never-frees", ["C18"], CTXS, "\tSSL_CTX_free(entry->ssl_ctx);", "\t;")
 M("tls-cert-dir-env-cached", ["C18"], BTLS, "    const char *cert_dir = getenv(TLS_CERT_ENV);\n    return cert_dir != NULL ? cert_dir : DEFAULT_CERT_DIR;", "    static const char *cert_dir;\n    if (cert_dir == NULL)\n\tcert_dir = getenv(TLS_CERT_ENV);\n    return cert_dir != NULL ? cert_dir : DEFAULT_CERT_DIR;")
